@@ -51,15 +51,18 @@ def Variant.fixed : Variant := ⟨true, true, true, true⟩
 /-- the code before the repairs -/
 def Variant.orig : Variant := ⟨false, false, false, false⟩
 
-/-- which variant the source is, read off the regenerated shapes (`Pool.Gen.C18`): `keepSubscriptions` is called in
-`HandleServerShutdown`; `connectAndAuthenticate` has three `HandleServerShutdown` call sites; `serverHandler` calls
-`HandleServerShutdown` inside a `for` loop -/
+/-- which variant the source is, read off the regenerated semantic facts (`Pool.Gen.C18Sem`): every error return of
+the reconnect body that can follow the emptying of the map keeps the accounts; `connectAndAuthenticate` re-connects
+inline at all three places where the diverted `ErrServerErrored` can surface; `serverHandler` feeds
+`HandleServerShutdown`'s result back into a retry loop; `HandleServerShutdown` starts over while dirty and the reader
+only marks a running re-connect dirty -/
 def variantOfSource : Variant :=
-  { keepOnAbort := Pool.Gen.C18.handleShutdownShape.contains "c.keepSubscriptions"
-    inlineOnError := Pool.Gen.C18.connectAndAuthShape.count "c.HandleServerShutdown" == 3
-    handlerRetries := Pool.Gen.C18.handlerReaction.contains "for err != nil && err != auctioneer.ErrClientShutdown"
-    serializeReconnects := Pool.Gen.C18.shutdownNoticeReaction.contains "if c.reconnecting > 0" &&
-      Pool.Gen.C18.handleShutdownShape.contains "if c.reconnectDirty" }
+  { keepOnAbort := Pool.Gen.C18Sem.reconnectKeepsOnFailure && Pool.Gen.C18Sem.batchFailureKeeps
+    inlineOnError := Pool.Gen.C18Sem.inlineReconnects == 3
+    handlerRetries := Pool.Gen.C18Sem.handlerRetryFeedsBack &&
+      Pool.Gen.C18Sem.handlerRetryWhile == ["auctioneer.ErrClientShutdown != e", "e != nil"]
+    serializeReconnects := Pool.Gen.C18Sem.shutdownStartsOverWhileDirty &&
+      Pool.Gen.C18Sem.noticeOnlyMarksWhileReconnecting && Pool.Gen.C18Sem.noticeElseHandles }
 
 /-- the auctioneer's view of one stream -/
 structure Stream where
